@@ -253,7 +253,7 @@ def cases(draw):
     c = {"k": kind, "setup": setup, "mu": mu, "scale_history": hist, "n": n, "array_scale": arr_scale,
          "mean_factors": draw(st.lists(st.floats(0.2, 5).map(lambda x: float("%.3g" % x)), max_size=4, unique=True))}
     if kind == "nbd":
-        c["var_factor"] = 1 + float("%.4g" % 10 ** draw(st.floats(-3, 4)))
+        c["var_factor"] = 1 + float("%.4g" % 10 ** draw(st.one_of(st.floats(-3, 4), st.floats(-6, -3))))      # down to var = mean (1 + 1e-6)
     if draw(st.integers(0, 3)) == 0:
         c["below_min"] = True
     return c
